@@ -1161,6 +1161,10 @@ impl SendSignal for VirtualSystem {
                     let mut state = self.state.borrow_mut();
                     match state.processes.get_mut(&target) {
                         Some(process) => {
+                            // A terminated process that has been waited for no longer exists.
+                            if !process.exists() {
+                                break 'result Err(Errno::ESRCH);
+                            }
                             if let Some(signal) = signal {
                                 let result = process.raise_signal(signal);
                                 if result.process_state_changed {
@@ -1504,7 +1508,8 @@ fn send_signal_to_processes(
     let mut results = Vec::new();
 
     for (&_pid, process) in &mut state.processes {
-        if target_pgid.is_none_or(|target_pgid| process.pgid == target_pgid) {
+        // A terminated process that has been waited for no longer exists.
+        if process.exists() && target_pgid.is_none_or(|target_pgid| process.pgid == target_pgid) {
             let result = if let Some(signal) = signal {
                 process.raise_signal(signal)
             } else {
